@@ -306,7 +306,7 @@ theorem updateRes_frame {g rho : α} {grades curves : List (PRC α)} {r r' : Res
 theorem ssStep_inv {kc : Consts α} {c : TrConsts α} {g rho : α} {t : Tpc α} {res res' : ResStrap α}
     {con con' : Consist α} {s s' : TrainState α} {vPrev vCur tPrev tCur : α}
     (h : ssStep kc c g rho t res con s vPrev vCur tPrev tCur = .ok (con', res', s')) :
-    0 ≤ vCur ∧ ∃ (con₁ : Consist α) (r₁ : Rs.ResState α) (s₁ : TrainState α),
+    0 ≤ vCur ∧ 0 ≤ vPrev ∧ ∃ (con₁ : Consist α) (r₁ : Rs.ResState α) (s₁ : TrainState α),
       consistSetCurMax kc (consistSetAux con (some true)) (tCur - tPrev) = .ok con₁ ∧
       updateRes g rho t.grades t.curves res s.r .fwd = .ok (res', r₁) ∧
       ssRequiredPwr c con₁.state { s with r := r₁ } vPrev vCur (tCur - tPrev) = .ok s₁ ∧
@@ -314,17 +314,27 @@ theorem ssStep_inv {kc : Consts α} {c : TrConsts α} {g rho : α} {t : Tpc α} 
       ssIntegrate c t.linkPoints s₁ vPrev vCur tCur = .ok s' := by
   unfold ssStep at h
   simp only [bind_ok, pure_ok, ensure_ok, exists_const, decide_eq_true_iff, Prod.mk.injEq] at h
-  obtain ⟨hv, con₁, h1, ⟨res₁, r₁⟩, h2, h⟩ := h
+  obtain ⟨hv, hp, con₁, h1, ⟨res₁, r₁⟩, h2, h⟩ := h
   simp only [bind_ok, pure_ok, Prod.mk.injEq] at h
   obtain ⟨s₁, h3, con₂, h4, s₂, h5, rfl, rfl, rfl⟩ := h
-  exact ⟨hv, con₁, r₁, s₁, h1, h2, h3, h4, h5⟩
+  exact ⟨hv, hp, con₁, r₁, s₁, h1, h2, h3, h4, h5⟩
 
+/-- a negative CURRENT sample is rejected (first `ensure!`) -/
 theorem ssStep_neg_err (kc : Consts α) (c : TrConsts α) (g rho : α) (t : Tpc α) (res : ResStrap α)
     (con : Consist α) (s : TrainState α) (vPrev vCur tPrev tCur : α) (hv : vCur < 0) :
     ssStep kc c g rho t res con s vPrev vCur tPrev tCur = .err "negative-speed" := by
   unfold ssStep
   have : decide (0 ≤ vCur) = false := decide_eq_false (not_le.mpr hv)
   simp [ensure, this, bind, Res.bind]
+
+/-- a negative PREVIOUS sample is rejected (second `ensure!`, added by the fix in /repo) -/
+theorem ssStep_prev_neg_err (kc : Consts α) (c : TrConsts α) (g rho : α) (t : Tpc α) (res : ResStrap α)
+    (con : Consist α) (s : TrainState α) (vPrev vCur tPrev tCur : α) (hc : 0 ≤ vCur) (hv : vPrev < 0) :
+    ssStep kc c g rho t res con s vPrev vCur tPrev tCur = .err "negative-speed-prev" := by
+  unfold ssStep
+  have h1 : decide (0 ≤ vCur) = true := decide_eq_true hc
+  have h2 : decide (0 ≤ vPrev) = false := decide_eq_false (not_le.mpr hv)
+  simp [ensure, h1, h2, bind, Res.bind]
 
 /-! ### `slRequiredPwr`, `slStep` -/
 
@@ -406,5 +416,60 @@ theorem slStep_inv {kc : Consts α} {c : TrConsts α} {sqrt : α → α} {g rho 
   simp only [bind_ok, pure_ok, Prod.mk.injEq] at h
   obtain ⟨con₂, h4, s₂, h5, rfl, rfl, rfl, rfl, rfl⟩ := h
   exact ⟨con₁, r₁, s₁, h1, h2, h3, h4, h5⟩
+
+/-! ### Concrete data over `ℚ` for a WHOLE accepted `ssStep` (one diesel unit, a 1 kg "train") -/
+namespace ExW
+
+def zE : EdrvState ℚ := ⟨0,0,0,0,0,0,0,0,0,0,0,0,0,0,0⟩
+/-- drivetrain with constant efficiency 1 -/
+def edrv (rating regen : ℚ) : Edrv ℚ :=
+  ⟨{ zE with pwrMechRegenMax := regen }, rating, [0, 1], [1, 1], []⟩
+def fc : FC ℚ := ⟨⟨10,0,0,0,0,0,0,0,0,0,true⟩, 10, 1, 1, [0, 1], [1, 1], 0⟩
+def gen : Gen ℚ := ⟨⟨0,0,0,0,0,0,0,0,0,0,0,0⟩, 10, [0, 1], [1, 1], []⟩
+/-- a diesel unit: 10 W engine, 6 W drivetrain, all efficiencies 1 -/
+def loco : Loco ℚ :=
+  { pt := .conv fc gen (edrv 6 0), state := ⟨5, 0, 0, 0, 0, 0, 0⟩, assertLimits := true,
+    pwrAuxOffset := 0, pwrAuxTractionCoeff := 0 }
+def kc : Consts ℚ := ⟨1/1000, 1/100000000, 1/20, 10⟩
+def c : TrConsts ℚ := ⟨1/2, 2, 4, 44704/1000000, 1/100000000, 1/10000000⟩
+def zCS : ConsistState ℚ := ⟨0,0,0,0,0,0,0,0,0,0,0,0,0,0,0,0,0⟩
+def con : Consist ℚ := ⟨[loco], .proportional, true, { zCS with pwrDynBrakeMax := 6 }⟩
+/-- one flat, straight 1000 m link (id 3) -/
+def tpc : Tpc ℚ :=
+  { linkPoints := [⟨0, 1, 1, 0, 3⟩, ⟨1000, 0, 0, 0, 0⟩], grades := [⟨0, 0, 0⟩, ⟨1000, 0, 0⟩],
+    curves := [⟨0, 0, 0⟩, ⟨1000, 0, 0⟩], speedPoints := [], cats := [],
+    par := ⟨⟨200, 30, 1, 1, 4⟩, 0, 0, 0, 0⟩, isFinished := true }
+/-- resistance: 1 N bearing force only -/
+def strap : ResStrap ℚ := ⟨1, 0, 0, 0, ⟨0, 0⟩, ⟨0, 0⟩⟩
+def r : Rs.ResState ℚ :=
+  { offset := 500, offsetBack := 300, speed := 1, length := 200, massStatic := 1,
+    weightStatic := 0, resRolling := 0, resBearing := 0, resDavisB := 0, resAero := 0,
+    resGrade := 0, resCurve := 0, gradeFront := 0, gradeBack := 0, elevFront := 0 }
+def k : Kin ℚ :=
+  { time := 0, totalDist := 0, linkIdxFront := 3, offsetInLink := 500, speedLimit := 30,
+    speedTarget := 30, dt := 1, massRot := 0, massFreight := 0, pwrRes := 0, pwrAccel := 0,
+    pwrWhlOut := 0, energyWhlOut := 0, energyWhlOutPos := 0, energyWhlOutNeg := 0 }
+def s : TrainState ℚ := ⟨r, k⟩
+def g : ℚ := 981/100
+def rho : ℚ := 12/10
+
+/-- the whole step (t, v) = (0, 1) → (1, 2) is accepted: accel 1.5 W + resistance 1.5 W = 3 W at the
+    wheel AND out of the consist, front 500 → 501.5 m -/
+theorem step_ok :
+    okVal ((ssStep kc c g rho tpc strap con s 1 2 0 1).bind fun x =>
+      pure [x.1.state.pwrOut, x.1.state.energyOut,
+            x.2.2.k.time, x.2.2.r.speed, x.2.2.k.pwrAccel, x.2.2.k.pwrRes, x.2.2.k.pwrWhlOut,
+            x.2.2.r.offset, x.2.2.r.offsetBack, x.2.2.k.totalDist, x.2.2.k.offsetInLink])
+      = some [3, 3, 1, 2, 3/2, 3/2, 3, 1003/2, 603/2, 3/2, 1003/2] := by
+  decide +kernel
+
+theorem step_ok' : ∃ con' res' s', ssStep kc c g rho tpc strap con s 1 2 0 1 = .ok (con', res', s') := by
+  have h := step_ok
+  cases hr : ssStep kc c g rho tpc strap con s 1 2 0 1 with
+  | ok x => exact ⟨x.1, x.2.1, x.2.2, rfl⟩
+  | err e => rw [hr] at h; simp [Res.bind, okVal] at h
+  | panic e => rw [hr] at h; simp [Res.bind, okVal] at h
+
+end ExW
 
 end Altrios.Proofs.TrainL
